@@ -230,6 +230,9 @@ var cur *Exec
 // departure from the deterministic default scheduler (continue the running thread, else the lowest
 // thread id, clock last) is a deviation. Set by Explore from Options.
 var BoundAll bool
+
+// NoEarlyClock forbids early timer expiry (the clock then only advances when no thread can run).
+var NoEarlyClock bool
 var epochCounter uint64
 
 // Cur returns the execution in progress, or nil in free mode.
@@ -596,6 +599,9 @@ func (e *Exec) schedule(t *Thread) {
 				case en[i] == e.clockThread:
 					if nThreads > 0 {
 						p.Costs[i] = 1 // early expiry
+						if NoEarlyClock {
+							p.Costs[i] = 1 << 20
+						}
 					}
 				case tEnabled && i > 0:
 					p.Costs[i] = 1 // preemption
